@@ -203,7 +203,7 @@ PROPS['C13'] = {
          'env': {'GORACE': 'halt_on_error=1'}, 'timeout': {'quick': 400, 'thorough': 3000}},
         {'test': 'TestC13Text', 'checks': {'quick': 2000, 'thorough': 50000}, 'timeout': {'quick': 120, 'thorough': 600}},
         {'test': 'TestC13Processes', 'helpers': ['digest'], 'timeout': {'quick': 300, 'thorough': 1200}},
-        {'test': 'TestC13TextProcesses', 'helpers': ['digest'], 'timeout': {'quick': 300, 'thorough': 1200}},
+        {'test': 'TestC13TextProcesses', 'helpers': ['digest', {'name': 'digest', 'goarch': '386'}], 'timeout': {'quick': 300, 'thorough': 1200}},
     ],
 }
 MANIFEST_TEXT['C13'] = {'claim': 'repeated/interleaved compilations give identical programs and leave the policy (exported fields and slice headers) untouched; concurrent compilations of deep and slice-sharing copies under the race detector; text forms stable; digests of a seeded corpus identical across fresh processes',
@@ -485,3 +485,9 @@ PROPS['C07']['units'].append({'test': 'TestC07JsWasm', 'timeout': {'quick': 600,
 PROPS['C01']['units'].append({'test': 'TestC01OtherProcesses', 'helpers': ['digest', {'name': 'digest', 'goarch': '386'}], 'timeout': {'quick': 300, 'thorough': 900}})
 PROPS['C02']['units'].append({'test': 'TestC02OtherProcesses', 'helpers': ['digest', {'name': 'digest', 'goarch': '386'}], 'timeout': {'quick': 300, 'thorough': 900}})
 PROPS['C01']['units'].append({'test': 'TestC01Sweep', 'tiers': ('thorough',), 'shards': {'thorough': 16}, 'timeout': {'thorough': 3000}})
+# independent values used from several goroutines at once (round 7)
+PROPS['C06']['units'].append({'test': 'TestC06Concurrent', 'checks': {'quick': 320, 'thorough': 16000}, 'shards': {'quick': 4, 'thorough': 8}, 'timeout': {'quick': 300, 'thorough': 3000}})
+PROPS['C06']['required_classes']['all'].append('concurrent-builders-with-far-jumps')
+PROPS['C12']['units'].append({'test': 'TestC12Concurrent', 'checks': {'quick': 400, 'thorough': 40000}, 'shards': {'quick': 2, 'thorough': 8}, 'timeout': {'quick': 300, 'thorough': 1500}})
+PROPS['C12']['required_classes']['all'].append('concurrent-lookups-of-different-tables')
+PROPS['C13']['required_classes']['all'] += ['operation-names-in-other-letter-case', 'text-forms-in-a-32-bit-process']
